@@ -350,6 +350,18 @@ macro_rules! i1_dim {
         let d = cow_d::<$T, $D>(&$data)?;
         match &$x {
             None => i1_built!($T, $D, Interp1DBuilder::new(d), $spec, $entry, $t),
+            // every fourth record with an explicit axis and the Linear strategy: once `build()` has accepted the inputs,
+            // the queries go to an interpolator assembled by `Interp1D::new_unchecked` from the same parts
+            Some(x) if order_bit(2) && order_bit(3) && matches!($spec, StratSpec::Lin(_)) => {
+                let StratSpec::Lin(ext) = $spec else { unreachable!() };
+                match Interp1D::builder(d.clone()).x(cow1(x)).strategy(Linear::new().extrapolate(ext)).build() {
+                    Err(e) => berr(e),
+                    Ok(_) => {
+                        let it = Interp1D::new_unchecked(cow1(x), d, Linear::new().extrapolate(ext));
+                        i1_entries!($T, $D, it, $entry, $t)
+                    }
+                }
+            }
             // the documented shorthand `Interp1D::builder` for explicit axes, `Interp1DBuilder::new` for the default axis
             Some(x) => i1_built!($T, $D, Interp1D::builder(d).x(cow1(x)), $spec, $entry, $t),
         }
@@ -529,6 +541,15 @@ macro_rules! i2_dim {
             }
             (None, Some(y)) => {
                 i2_built!($T, $D, Interp2DBuilder::new(d).y(cow1(y)), $ext, $entry, $t)
+            }
+            (Some(x), Some(y)) if order_bit(2) && order_bit(3) => {
+                match Interp2D::builder(d.clone()).x(cow1(x)).y(cow1(y)).strategy(Bilinear::new().extrapolate($ext)).build() {
+                    Err(e) => berr(e),
+                    Ok(_) => {
+                        let it = Interp2D::new_unchecked(cow1(x), cow1(y), d, Bilinear::new().extrapolate($ext));
+                        i2_entries!($T, $D, it, $entry, $t)
+                    }
+                }
             }
             (Some(x), Some(y)) => i2_built!(
                 $T,
